@@ -352,7 +352,61 @@ fn soup(s: &mut Stream, depth: usize, budget: &mut isize) -> T {
 
 pub fn decode(bytes: &[u8]) -> Case {
     let mut s = Stream::new(bytes);
-    match s.weighted(&[3, 6, 3]) {
+    match s.weighted(&[60, 120, 60, 1]) {
+        3 => {
+            // one very wide decision node, with action counts around the limits of 8- and 16-bit
+            // indices; two of its actions, a power of two apart, lead to further decisions of the
+            // same player which share an infoset (a forgotten own action), or do not
+            let p = s.below(2);
+            let width = if s.bool() { [255usize, 256, 257][s.below(3)] } else { [65535usize, 65536, 65537, 70000, 131073][s.below(5)] };
+            let mut step = 1usize << s.below(18);
+            while step >= width {
+                step /= 2;
+            }
+            let i = ((s.u16() as usize) * (width - step)) >> 16;
+            let j = i + step;
+            let variant = s.below(4);
+            let below = |name: &str| T::Player(p, name.to_string(), vec![("l".into(), T::Term(1.0)), ("r".into(), T::Term(-1.0))]);
+            let acts: Vec<(String, T)> = (0..width)
+                .map(|k| {
+                    let child = if k == i {
+                        below("x")
+                    } else if k == j {
+                        below(if variant == 0 { "x" } else { "y" })
+                    } else {
+                        T::Term(0.0)
+                    };
+                    (format!("a{}", k), child)
+                })
+                .collect();
+            let wide = T::Player(p, "w".into(), acts);
+            // the wide infoset is the mover's first infoset, or his second (an own decision, or one
+            // of the other player, comes first), and the shared infoset below it may be shared
+            // (variants 0 and 3) or not
+            let shares = variant == 0 || variant == 3;
+            let acts: Vec<(String, T)> = if variant == 3 {
+                // rebuild with the second child sharing "x"
+                match wide {
+                    T::Player(_, _, mut acts) => {
+                        acts[j].1 = below("x");
+                        acts
+                    }
+                    _ => unreachable!(),
+                }
+            } else {
+                match wide {
+                    T::Player(_, _, acts) => acts,
+                    _ => unreachable!(),
+                }
+            };
+            let wide = T::Player(p, "w".into(), acts);
+            let tree = match variant {
+                2 => T::Player(1 - p, "first".into(), vec![("go".into(), wide), ("stop".into(), T::Term(0.5))]),
+                3 => T::Player(p, "pre".into(), vec![("go".into(), wide), ("stop".into(), T::Term(0.5))]),
+                _ => wide,
+            };
+            Case { tree, mode: "very-wide-node", ops: vec![if shares { "forgotten-own-action" } else { "none" }] }
+        }
         0 => {
             let cfg = if s.chance(48) { GenCfg::medium() } else { GenCfg::small() };
             let g = gen_game(&mut s, &cfg);
@@ -408,11 +462,18 @@ pub fn accepted_checks(id: &str, tree: &T, game: &glue::G, deep: bool) -> Result
             format!("num_infosets() = {} but the tree has {} multi-action infosets", game.num_infosets(), info.num_multi()),
         ));
     }
+    // the harness's own helpers scan action lists linearly: a node with 10^5 actions is only
+    // checked for acceptance and for its compact tree
+    if info.num_nodes > 20_000 {
+        return Ok(());
+    }
     let uni = uniform_profile(&info);
     super::c01::compare_eval(id, tree, &info, game, &uni)?;
     if deep {
-        for method in [cfr::SolveMethod::Full, cfr::SolveMethod::Sampled, cfr::SolveMethod::External] {
-            let res = catch_unwind(AssertUnwindSafe(|| game.solve(method, 3, 0.0, 1, None)));
+        for method in [refcfr::Method::Full, refcfr::Method::Sampled, refcfr::Method::External] {
+            // production samplers on seeded generators: reproducible
+            let rec = glue::Recorder::new(glue::Mode::Seeded(info.num_nodes as u64));
+            let res = catch_unwind(AssertUnwindSafe(|| glue::solve_hooked(game, &rec, method, 3, 0.0, 1, None)));
             match res {
                 Err(_) => return Err(Verdict::fail(format!("{}/solve-panics-on-accepted", id), format!("{:?} panicked on an accepted game", method))),
                 Ok(Err(e)) => return Err(Verdict::fail(format!("{}/solve-error-on-accepted", id), format!("{:?}", e))),
@@ -500,7 +561,9 @@ pub fn check(bytes: &[u8], _ctx: &Ctx) -> Verdict {
 pub fn describe(bytes: &[u8]) -> Value {
     let case = decode(bytes);
     let (contract, _) = validate::check(&case.tree);
-    json!({"mode": case.mode, "operators": case.ops, "tree": case.tree.brief(), "contract": format!("{:?}", contract)})
+    let nodes = case.tree.num_nodes();
+    let shown = if nodes <= 3000 { case.tree.brief() } else { format!("({} nodes; mode {})", nodes, case.mode) };
+    json!({"mode": case.mode, "operators": case.ops, "tree": shown, "contract": format!("{:?}", contract)})
 }
 
 pub fn prop() -> Prop {
@@ -508,7 +571,7 @@ pub fn prop() -> Prop {
         id: "C11",
         check,
         describe,
-        rule: "trees from three sources: valid generated games; valid games + 1-2 violation operators (empty chance, bad weight {0,-1,NaN,+-inf,-0}, shared chance label with other weights/order/1e-9 perturbation, empty player, renamed/reordered/dropped/duplicated action at one node, relabel to another infoset, forgotten own action, absent-mindedness, non-finite payoff, single- and multi-action nodes under one name, single infoset with differing action) at stream-chosen nodes for either player; raw label soup over 2-4 label alphabets. Oracle: an independent contract validator (MustAccept / MustReject(set of rules) / DontCare); accepted trees are additionally zipped against the harness's collapsed tree, evaluated against the C01 oracles and solved for 3 iterations by each method. Non-trivial = rejected with the violation across root branches, for player two, or a recall violation; or accepted with a multi-node infoset; distinct by tree.",
+        rule: "trees from three sources: valid generated games; valid games + 1-2 violation operators (empty chance, bad weight {0,-1,NaN,+-inf,-0}, shared chance label with other weights/order/1e-9 perturbation, empty player, renamed/reordered/dropped/duplicated action at one node, relabel to another infoset, forgotten own action, absent-mindedness, non-finite payoff, single- and multi-action nodes under one name, single infoset with differing action) at stream-chosen nodes for either player; raw label soup over 2-4 label alphabets; rarely one very wide decision node (255..131073 actions) two of whose actions, a power of two apart, lead to decisions that do or do not share an infoset. Oracle: an independent contract validator (MustAccept / MustReject(set of rules) / DontCare); accepted trees are additionally zipped against the harness's collapsed tree, evaluated against the C01 oracles and solved for 3 iterations by each method. Non-trivial = rejected with the violation across root branches, for player two, or a recall violation; or accepted with a multi-node infoset; distinct by tree.",
         max_len: 700,
         cases_quick: 1_500_000,
         cases_thorough: 20_000_000,
